@@ -1,7 +1,7 @@
 SPECIFICATION GSpec
 CONSTANTS
   Sigs = {"traces", "metrics"}
-  Reqs = {1, 2}
+  Reqs = {1}
   Variant = "real"
   Configs = {"gh"}
   Kinds = {"same"}
